@@ -35,7 +35,7 @@ Proof. induction rest as [|b rest IH]; intros acc i; cbn [map from_bits_aux]; [r
 
 Lemma unpack_secret_eq m (b0 : slc) (rest : list slc) : length (b0 :: rest) = bitlen_of m ->
   unpack_v c (KIntMod m) (map (PBool 0) (b0 :: rest)) 0 =
-  (y <- ensurelc (PInt m) ;; assert_lt c (from_bits (b0 :: rest)) y ;;; ret (PLC (from_bits (b0 :: rest)))).
+  (assert_positive (rsubc (m - 1) (from_bits (b0 :: rest))) (bitlen_of m) ;;; ret (PLC (from_bits (b0 :: rest)))).
 Proof.
   intros L. cbn [unpack_v]. rewrite <- L. cbn [length Nat.eqb]. unfold nth_bits. rewrite map_length. cbn [length Nat.ltb Nat.leb map nth bind ret skipn].
   rewrite firstn_all2 by (cbn [length]; rewrite map_length; lia). disp. rewrite weights_eq. cbn [bind ret]. reflexivity.
@@ -49,11 +49,10 @@ Proof.
   intros I Hk HQ. cbn [pack_v]. apply wp_bind. apply wp_bind. apply to_bits_wp; [exact I|]. intros bs s1 sg1 (I1 & E1 & T1) Sbs Vbs. cbn [ret wp].
   assert (L : length bs = bitlen_of m) by (apply (f_equal (@length Z)) in Vbs; unfold GadgetsOK.vals in Vbs; rewrite !map_length, seq_length in Vbs; exact Vbs).
   destruct bs as [|b0 rest]; [cbn in L; lia|]. rewrite (unpack_secret_eq m b0 rest L).
-  apply wp_bind. unfold ensurelc. apply OK_ensurelc_int; [exact I1|]. intros y s2 sg2 (I2 & E2 & T2).
-  apply wp_bind. apply OK_assert_lt; [exact I2|]. intros [] s3 sg3 (I3 & E3 & T3). cbn [ret wp].
-  apply HQ; [exact I3|eapply ext_trans; [exact E1|eapply ext_trans; eauto]|].
+  apply wp_bind. apply OK_assert_positive; [exact I1|]. intros [] s3 sg3 (I3 & E3 & T3). cbn [ret wp].
+  apply HQ; [exact I3|eapply ext_trans; [exact E1|exact E3]|].
   rewrite ve_from_bits.
-  assert (E13 : ext sg1 sg3) by (eapply ext_trans; eauto).
+  assert (E13 : ext sg1 sg3) by exact E3.
   rewrite (vals_keep ins ig _ _ _ _ (proj1 I1) E13 Sbs), Vbs. apply wsum_pybit_mod.
 Qed.
 End PKV.
